@@ -327,6 +327,17 @@ def run(ctx):
             # parameters, i.e. the curve) is a necessary condition of SKI(issuer cert) == AKI(child)
             import c11
             common.borrow_rules(rep, lambda: c11.check_spki(cfg, crate, rep), "C11.", "C03.spki")
+        if cfg in ("K1", "K2"):
+            # an imported name is re-emitted under the attribute types `from_oid` chose: it must invert `to_oid`
+            import c02 as _c02
+            n0_ = len(rep.obligations)
+            _c02.check_tables(cfg, crate, rep)
+            keep_ = [o for o in rep.obligations[n0_:] if "DnType::" in o["key"]]
+            del rep.obligations[n0_:]
+            for o in keep_:
+                o["key"] = o["key"].replace("C02.tables", "C03.import", 1)
+                o["rule"] = "C03.import"
+            rep.obligations.extend(keep_)
         if cfg == "K1":
             # "issuer name byte-identical to the issuer certificate's subject name" for an imported CA: a string
             # wrapper re-emits exactly the bytes it was decoded from only while its alphabet is the one whose UTF-8
